@@ -7,9 +7,11 @@ package main
 // the method stores true into a bool field.  Where it ends decides what the caller does with it.
 
 import (
+	"fmt"
 	"go/ast"
 	"go/token"
 	"go/types"
+	"strings"
 )
 
 type boolFlow struct {
@@ -55,6 +57,17 @@ func (a *c18) followBool(fd *ast.FuncDecl, seedCalls map[*ast.CallExpr]int, seed
 		case *ast.BinaryExpr:
 			if x.Op == token.LOR {
 				return isReq(x.X) || isReq(x.Y)
+			}
+			// an integer flag read as a condition: flag != 0, load(&flag) == 1 …
+			if x.Op == token.NEQ || x.Op == token.EQL || x.Op == token.GTR {
+				if c := constOf(info, x.Y); c != nil && isReq(x.X) {
+					return true
+				}
+			}
+		}
+		if call, ok := e.(*ast.CallExpr); ok && len(seedObjs) > 0 {
+			if o := a.atomicTarget(call, false); o != nil && seedObjs[o] {
+				return true
 			}
 		}
 		return false
@@ -133,7 +146,7 @@ func (a *c18) followBool(fd *ast.FuncDecl, seedCalls map[*ast.CallExpr]int, seed
 							}
 						}
 					case *ast.CallExpr:
-						if setsFieldTrue(y) && !bf.field {
+						if (setsFieldTrue(y) || a.atomicTarget(y, true) != nil) && !bf.field {
 							bf.field = true
 							changed = true
 						}
@@ -206,4 +219,88 @@ func (a *c18) returnsSeed(g *types.Func, seedObjs map[types.Object]bool) bool {
 	a.seedBusy[g] = false
 	a.seedMemo[g] = len(bf.ownIdx) > 0
 	return a.seedMemo[g]
+}
+
+// joinedUnlessErr teaches a "joined" flow the idiom
+//
+//	if err == nil { err = eg.Wait() }
+//	if err != nil { return … }
+//
+// — after the first statement the workers are joined or err is non-nil; on the path where err is
+// then found nil they are joined.  The disjunction is kept as a fact of its own across the merge.
+func (a *c18) joinedUnlessErr(cl *FactsClient) {
+	errName := func(e ast.Expr) (string, bool) {
+		b, ok := unparen(e).(*ast.BinaryExpr)
+		if !ok || (b.Op != token.EQL && b.Op != token.NEQ) {
+			return "", false
+		}
+		x, y := b.X, b.Y
+		if isNilConst(a.info, x) {
+			x, y = y, x
+		}
+		if !isNilConst(a.info, y) {
+			return "", false
+		}
+		o := objOf(a.info, x)
+		if o == nil || !isErrorType(o.Type()) {
+			return "", false
+		}
+		return o.Name() + "@" + fmt.Sprint(int(o.Pos())), b.Op == token.NEQ
+	}
+	innerBranch, innerStmt := cl.OnBranch, cl.OnStmt
+	cl.OnBranch = func(cond ast.Expr, truth bool, s Facts) Facts {
+		if innerBranch != nil {
+			s = innerBranch(cond, truth, s)
+		}
+		for _, at := range conjuncts(cond, truth) {
+			name, isNeq := errName(at.E)
+			if name == "" {
+				continue
+			}
+			nonNil := isNeq == at.Truth
+			if nonNil {
+				s["errnn:"+name] = true
+			} else {
+				delete(s, "errnn:"+name)
+				if s["joinedUnless:"+name] {
+					s["joined"] = true
+				}
+			}
+		}
+		return s
+	}
+	cl.OnStmt = func(n ast.Node, s Facts) Facts {
+		// an assignment to the error variable ends what was known about it
+		if as, ok := n.(*ast.AssignStmt); ok {
+			for _, l := range as.Lhs {
+				if o := objOf(a.info, l); o != nil && isErrorType(o.Type()) {
+					name := o.Name() + "@" + fmt.Sprint(int(o.Pos()))
+					delete(s, "errnn:"+name)
+					delete(s, "joinedUnless:"+name)
+				}
+			}
+		}
+		if innerStmt != nil {
+			s = innerStmt(n, s)
+		}
+		return s
+	}
+	cl.OnJoin = func(x, y Facts) Facts {
+		m := x.Meet(y)
+		for _, pq := range [][2]Facts{{x, y}, {y, x}} {
+			p, q := pq[0], pq[1]
+			if !p["joined"] {
+				continue
+			}
+			for k := range q {
+				if strings.HasPrefix(k, "errnn:") {
+					m["joinedUnless:"+k[len("errnn:"):]] = true
+				}
+				if strings.HasPrefix(k, "joinedUnless:") {
+					m[k] = true
+				}
+			}
+		}
+		return m
+	}
 }
